@@ -27,6 +27,8 @@ structure Raw where
   conf : Rank
   lineno : Option Nat := none
   col : Option Nat := none
+  /-- `issue.linerange` when the check sets it itself (only the file-level B613 does) -/
+  range : Option (List Nat) := none
 deriving DecidableEq, Repr, Inhabited
 
 /-- How a check locates its finding.  Checks decide on the shape of the code; *where* the finding
@@ -63,7 +65,6 @@ structure Env where
   ctx : Ctx
   lines : List Str := []      -- decoded physical lines of the file (for `File` checks)
   fileName : Str := []
-  isStdin : Bool := false
 deriving Inhabited
 
 namespace Env
@@ -137,7 +138,7 @@ def emit (nm : NosecMap) (ctx : Ctx) (raw : Raw) : M Event := do
   let col ← match raw.col with
     | some c => pure c
     | none => match ctx.col with | some c => pure c | none => throw Crash.keyError
-  let f : Finding := ⟨raw.id, raw.sev, raw.conf, line, ctx.linerange, col⟩
+  let f : Finding := ⟨raw.id, raw.sev, raw.conf, line, raw.range.getD ctx.linerange, col⟩
   match skip with
   | some [] => pure (.nosec f)
   | some s => if s.contains raw.id then pure (.skipped f) else pure (.finding f)
@@ -155,7 +156,7 @@ def PRaw.resolve (v : Visit) (p : PRaw) : Raw :=
   | .ctx => { id := p.id, sev := p.sev, conf := p.conf }
   | .node => { id := p.id, sev := p.sev, conf := p.conf, lineno := v.node.line? }
   | .kw names => { id := p.id, sev := p.sev, conf := p.conf, lineno := names.findSome? (kwLine v.node) }
-  | .abs l c => { id := p.id, sev := p.sev, conf := p.conf, lineno := some l, col := some c }
+  | .abs l c => { id := p.id, sev := p.sev, conf := p.conf, lineno := some l, col := some c, range := some [l] }
 
 /-- `if result.test_id == "": result.test_id = test._test_id` — plugins do not name their ID,
 the tester fills it in; only the blacklist names the matching rule's ID itself. -/
@@ -256,14 +257,13 @@ structure FileInput where
   root : Node
   nosec : NosecMap          -- already empty when `--ignore-nosec`
   lines : List Str := []
-  isStdin : Bool := false
 
 def scanFile (checks : List Check) (inp : FileInput) : List Event :=
   let vs := visits inp.root
   scanVisits checks inp.nosec inp.lines {} vs ++
     (checksFor checks "File".toList).flatMap
       (runCheck inp.nosec { v := ⟨[], fileNode, none⟩, st := stateAfter {} vs, ctx := fileCtx,
-                             lines := inp.lines, isStdin := inp.isStdin })
+                             lines := inp.lines })
 
 def findingsOf (es : List Event) : List Finding := es.filterMap fun | .finding f => some f | _ => none
 def nosecCount (es : List Event) : Nat := (es.filter fun | .nosec _ => true | _ => false).length
